@@ -221,7 +221,9 @@ def run_keys(spec, res):
         try:
             with np.errstate(all='raise'):
                 got['gdet#from_3+1'] = np.array(rel['gdet'])
-                for k in want:
+                # request order varies from case to case (e.g. gup4 with and
+                # without gdown4 in the cache)
+                for k in [list(want)[i] for i in rng.permutation(len(want))]:
                     got[k] = np.array(rel[k])
                 del rel.data['gdet']
                 got['gdet#from_gdown4'] = np.array(rel['gdet'])
